@@ -133,6 +133,24 @@ def stress(c, tier):
                         {"stress": args[2:], "trace": out, "at": matched + 1})
         if i == 0:
             c.sample({"cache_trace_head": [json.loads(l) for l in open(out).read().splitlines()[:6]]})
+    # the salt cache: the same request on every connection of one server at the same moment, round after round
+    for i, (th, rounds) in enumerate([(8, 1500)] if tier == "quick" else [(2, 20000), (4, 10000), (8, 10000), (16, 4000)]):
+        out = os.path.join(wd, "salt_%d.ndjson" % i)
+        args = ["c09-salt", "--seed", str(vlib.seed() * 100 + i), "--threads", str(th), "--rounds", str(rounds), "--out", out]
+        p = subprocess.run([vlib.VH] + args, stdout=subprocess.PIPE, stderr=subprocess.PIPE, text=True, timeout=3000)
+        if p.returncode != 0:
+            c.violation("%d connections presenting the same request at once: the process died (exit %s): %s" % (th, p.returncode, p.stderr.strip()[-200:]), {"salt": args[1:]})
+            continue
+        row = next(json.loads(l) for l in p.stdout.splitlines() if l.startswith("{"))
+        c.add("same_handshake_rounds", row["rounds"])
+        acc, matched, r = vlib.validate_trace("MCTraceSharedState", "TraceSharedState.cfg", out, timeout=1800)
+        c.tlc_stats(r)
+        if acc:
+            c.add("traces_validated_against_impl", 1)
+        else:
+            ev = open(out).read().splitlines()[matched:matched + 1]
+            c.violation("%d connections of one server presented the same Shadowsocks 2022 request at the same moment: round %d %s - not exactly one accepted (%d such rounds of %d, up to %d copies accepted)" %
+                        (th, matched + 1, ev, row["bad_rounds"], row["rounds"], row["most_accepted"]), {"salt": args[1:], "row": row})
 
 
 # ---------------------------------------------------------------------------------------------------------------
@@ -420,6 +438,14 @@ def replay(path):
         print(p.stdout[-2000:], p.stderr[-300:])
         rows = [json.loads(l) for l in p.stdout.splitlines() if l.startswith("{")]
         if p.returncode != 0 or any(not r["ok"] for r in rows):
+            print("VIOLATION property=C09 replay=%s" % path)
+            return 1
+        return 0
+    if "salt" in rp:
+        p = subprocess.run([vlib.VH, "c09-salt"] + rp["salt"], stdout=subprocess.PIPE, stderr=subprocess.PIPE, text=True, timeout=1800)
+        print(p.stdout[-800:], p.stderr[-300:])
+        row = next((json.loads(l) for l in p.stdout.splitlines() if l.startswith("{")), None)
+        if p.returncode != 0 or row is None or row["bad_rounds"]:
             print("VIOLATION property=C09 replay=%s" % path)
             return 1
         return 0
